@@ -78,7 +78,11 @@ def theorems_in(path):
     out = []
     ns = []
     with open(path) as fh:
-        for i, line in enumerate(fh, 1):
+        text = fh.read()
+    # blank out block comments, keeping the line structure (a doc comment may contain the word "theorem" at a line start)
+    text = re.sub(r"/-.*?-/", lambda m: "\n" * m.group(0).count("\n"), text, flags=re.S)
+    if True:
+        for i, line in enumerate(text.split("\n"), 1):
             m = re.match(r"namespace\s+(\S+)", line)
             if m:
                 ns.append(m.group(1))
@@ -231,7 +235,18 @@ def run_scripts(prop, tier, seed, build, extra_env=None, tag="main"):
                 q.kill()
             infra("property script %s (%s) exceeded %d s" % (spec["script"], cfg, limit))
         if p.returncode != 0 or not os.path.exists(out):
-            infra("property script %s (%s) failed rc=%s:\n%s" % (spec["script"], cfg, p.returncode, so[-4000:]))
+            crash = script_crash(so) if p.returncode == 1 else None
+            if crash is None:
+                infra("property script %s (%s) failed rc=%s:\n%s" % (spec["script"], cfg, p.returncode, so[-4000:]))
+            # the correspondence script itself stopped on something the implementation returned (a NaN, a wrong
+            # shape, ...): the correspondence no longer checks on this tree; never silently an infrastructure failure
+            log("%s[%s]: correspondence script stopped: %s" % (prop, cfg, crash))
+            results.append({"prop": prop, "config": cfg, "evaluations": 0, "distinct_nontrivial": 0, "samples": [],
+                            "dist": {"mismatch_ops": {"script-stopped": 1}}, "failures": [], "notes": [], "skipped": {},
+                            "wall_s": 0.0,
+                            "mismatches": [{"op": "script-stopped", "config": cfg, "inputs": None, "impl": crash,
+                                            "model": None, "note": so[-3000:]}]})
+            continue
         with open(out) as fh:
             results.append(json.load(fh))
         os.unlink(out)
@@ -239,6 +254,22 @@ def run_scripts(prop, tier, seed, build, extra_env=None, tag="main"):
             for line in so.strip().split("\n")[-10:]:
                 log("%s[%s]: %s" % (prop, cfg, line))
     return results
+
+
+INFRA_EXC = ("MemoryError", "ImportError", "ModuleNotFoundError", "OSError", "FileNotFoundError", "BrokenPipeError",
+             "PermissionError", "KeyboardInterrupt", "SyntaxError", "IndentationError", "DriverError", "TimeoutError",
+             "BlockingIOError", "ConnectionError", "subprocess.")
+
+
+def script_crash(so):
+    """last line of an uncaught-exception traceback of a property script, when the exception is one that the data
+    returned by the implementation can cause (ValueError, IndexError, ...); None for infrastructure trouble"""
+    if "Traceback (most recent call last)" not in so:
+        return None
+    last = [ln for ln in so.strip().split("\n") if ln.strip()][-1].strip()
+    if any(last.startswith(e) or (e.endswith(".") and e in last.split(":")[0]) for e in INFRA_EXC):
+        return None
+    return last[:300]
 
 
 # ---------------------------------------------------------------------------------- findings
@@ -314,6 +345,16 @@ def main():
             extract_problems += [l for l in r2.stdout.split("\n") if l.startswith("EXTRACT-PROBLEM")]
         ensure_driver()
         lean = lean_obligations(prop)
+        lean["leanchecker"] = None
+        if tier == "thorough" and not lean["broken"]:
+            # independent re-check of the compiled .olean files of the property's modules (and their imports)
+            t1 = time.time()
+            rc_ = subprocess.run(["lake", "env", "leanchecker"] + lean["modules"], cwd=LEAN, stdout=subprocess.PIPE,
+                                 stderr=subprocess.STDOUT, text=True)
+            lean["leanchecker"] = {"rc": rc_.returncode, "wall_s": round(time.time() - t1, 1), "tail": rc_.stdout[-400:]}
+            if rc_.returncode != 0:
+                lean["broken"].append("leanchecker rejected the compiled modules: " + rc_.stdout[-300:])
+                lean["discharged"] = 0
     finally:
         lake_unlock()
     log("lean: %d/%d obligations discharged in %.1fs%s" % (lean["discharged"], lean["obligations"], lean["build_s"],
@@ -364,7 +405,8 @@ def main():
         exit_code = 1
     elif lean["broken"] or n_mismatch:
         payload = {"property": prop, "kind": "no-failing-input-found",
-                   "broken_obligations": lean["broken"], "lean_errors": lean["errors"][:20],
+                   "broken_obligations": lean["broken"],
+            "leanchecker": lean.get("leanchecker"), "lean_errors": lean["errors"][:20],
                    "correspondence_mismatches": mismatches[:20], "extract_problems": extract_problems,
                    "search": searched}
         path = write_replay(prop, payload)
@@ -388,7 +430,8 @@ def write_evidence(prop, tier, seed, lean, results, known_hit, violations, extra
         "property_id": prop, "tier": tier, "seed": seed, "level": "proof",
         "coverage": {
             "obligations": max(lean["obligations"], 1), "discharged": lean["discharged"],
-            "checker_cmd": "cd lean && lake build " + " ".join(lean["modules"]) + " && lake env lean BezierVerif/Audit/%s.lean  (#print axioms of every theorem)" % prop,
+            "checker_cmd": "cd lean && lake build " + " ".join(lean["modules"]) + " && lake env lean BezierVerif/Audit/%s.lean  (#print axioms of every theorem)" % prop
+                           + ("" if tier != "thorough" else " && lake env leanchecker " + " ".join(lean["modules"])),
             "trusted_base": spec.get("trusted_base", []) + [
                 "Lean 4.33.0 kernel; axioms allowed: propext, Classical.choice, Quot.sound (audited per theorem, listed under axioms)",
                 "Mathlib v4.33.0 definitions used in statements",
